@@ -233,6 +233,7 @@ def check(prog, rep):
            f"the pivot atom is rotated in {pivot_moved[:3]}", f"pdb2pqr/residue.py:{gm.lineno} (get_moveable_names)")
 
     selection_history_free(prog, r1, gm_info)
+    rep.guarded(rule_scan_uses_own_move_set, prog, rep)
     flip_twins(prog, r1, t, model, backbone, rank, moved_names)
 
     # ------------------------------------------------------------------ R2
@@ -596,3 +597,82 @@ def _created_here(fn, name):
                 and U(s.value.args[0]) in created:
             return True
     return False
+
+
+def rule_scan_uses_own_move_set(prog, rep):
+    """Debump.debump_residue is evaluated on a model residue with two torsions whose move sets differ, in a neighbourhood that is never
+    cured (so both torsions are tried): every rotation must move exactly the atoms beyond the bond of the torsion being set - not a list
+    remembered from the previous torsion."""
+    from ..guards import Flow, Obj
+    from ..objinterp import ObjRunner
+    r = rep.rule("R6", "debump scan: each torsion that is tried rotates its own far side", floor=2)
+    fi = prog.func("debump.py", "Debump.debump_residue")
+    sd = prog.func("debump.py", "Debump.set_dihedral_angle")
+    where = f"pdb2pqr/debump.py:{fi.node.lineno} (Debump.debump_residue)"
+    angle_param = sd.node.args.args[2].arg
+    move = {"CB": ["CG1", "CG2", "CD1", "HB"], "CG1": ["CD1", "HG12"], "CD1": ["HD11"]}
+    dihedrals = ["N CA CB CG1", "CA CB CG1 CD1", "CB CG1 CD1 HD11"]
+    coords = {"coords": lambda a_: [a_["x"], a_["y"], a_["z"]]}
+    for order_name, picks in (("torsions tried in table order", [0, 1, 2, -1]), ("last torsion first", [2, 0, 1, -1]), ("one torsion twice", [1, 1, 0, -1])):
+        names = ["N", "CA", "CB", "CG1", "CG2", "CD1", "HB", "HG12", "HD11"]
+        res = Obj({"__class__": "ILE", "name": "ILE", "dihedrals": [60.0, 170.0, 55.0], "map": {}, "atoms": [],
+                   "reference": Obj({"__class__": "DefinitionResidue", "dihedrals": list(dihedrals)})})
+        for k, n_ in enumerate(names):
+            a = Obj({"__class__": "Atom", "name": n_, "x": 1.5 * k, "y": 0.3 * k * k, "z": -0.7 * k, "residue": res, "cell": None, "__props__": coords})
+            res["map"][n_] = a
+            res["atoms"].append(a)
+        script = {"picks": list(picks)}
+        rotations = []
+
+        def extra(runner, interp, call, args, kw, res=res, script=script, rotations=rotations):
+            nm = U(call.func)
+            f_ = call.func
+            if isinstance(f_, ast.Attribute):
+                recv_txt = U(f_.value)
+                if f_.attr == "pick_dihedral_angle":
+                    return script["picks"].pop(0) if script["picks"] else -1
+                if f_.attr == "get_moveable_names" and args:
+                    return list(move[args[0]])
+                if f_.attr == "get_atom" and args and recv_txt.endswith("residue"):
+                    return res["map"].get(args[0])
+                if f_.attr == "has_atom" and args and recv_txt.endswith("residue"):
+                    return args[0] in res["map"]
+                if f_.attr == "find_residue_conflicts":
+                    return ["CD1"]
+                if f_.attr == "find_nearby_atoms":
+                    return {}
+                if f_.attr in ("remove_cell", "add_cell"):
+                    if f_.attr == "remove_cell" and rotations:
+                        rotations[-1][1].append(args[0]["name"])
+                    return None
+            if nm.endswith("qchichange") and len(args) == 3:
+                rotations.append((interp.env.get(angle_param), [], len(args[1])))
+                return [[1.0 * i, 2.0, 3.0] for i in range(len(args[1]))]
+            if nm.endswith("subtract") and len(args) == 2:
+                return [a - b for a, b in zip(args[0], args[1])]
+            if nm.endswith("dihedral") and len(args) == 4:
+                return 0.0
+            return NotImplemented
+
+        run = ObjRunner(prog, "debump.py", extra_hook=extra)
+        deb = Obj({"__class__": "Debump", "biomolecule": None, "cells": Obj({"__class__": "<cells>"}), "definition": None, "aadef": None})
+        # attributes a refactoring may add in __init__ / at the start of a debump pass: take them from the constructor's own assignments
+        init = prog.func("debump.py", "Debump.__init__").node
+        for st in init.body:
+            if isinstance(st, ast.Assign) and len(st.targets) == 1 and U(st.targets[0]).startswith("self.") and U(st.targets[0])[5:] not in deb:
+                try:
+                    run.run_block(prog.func("debump.py", "Debump.__init__"), [st], {"self": deb, "biomolecule": None, "definition": None})
+                except (AnalysisError, Flow):
+                    pass
+        try:
+            run.call(deb, "debump_residue", res, ["CD1"])
+        except Flow as fl:
+            r.bad(f"scan|{order_name}", f"debump_residue stops with {fl.value} on the model residue", where)
+            continue
+        bad = []
+        for anglenum, moved, n_in in rotations:
+            want = move[dihedrals[anglenum].split()[2]] if isinstance(anglenum, int) else None
+            if want is None or sorted(moved) != sorted(want) or n_in != len(want):
+                bad.append(f"torsion {anglenum} ({dihedrals[anglenum] if isinstance(anglenum, int) else '?'}): rotated {moved}, its far side is {want}")
+        r.add(f"scan|{order_name}", bool(rotations) and not bad, f"{order_name}: {len(rotations)} rotations" + ("; each moves the far side of its own torsion" if not bad else
+              "; " + "; ".join(bad[:3])), where)
